@@ -42,6 +42,8 @@ class Acc:
         self.samples = []
         self.notes = []
         self.deviations_seen = {}
+        self.unexplained = []      # deviations of the real code from the spec that do not break the statement
+        self.known_keys = set()    # keys of violations produced by replaying the known-finding counterexamples
 
 
 def job_mc(ctx, acc, variant, cfg, workers, rng):
@@ -76,12 +78,14 @@ def job_mc(ctx, acc, variant, cfg, workers, rng):
         want.add("init:ins" if variant == "UC20ns" else "init:ibase")
     if want - set(census):
         raise InfraError("vacuity guard: %s reaches no %s cases" % (cfg, sorted(want - set(census))))
-    events = bt.run_driver(ctx, cases, cfg[11:-4], procs=ctx.pick(1, 4))
-    v, ncases, nlines = bt.validate_events(ctx, variant, cases, events, cfg[11:-4])
-    ctx.log("%s: %d distinct states (%.0fs), %d act + %d initramfs cases on real code, %d events validated, %d violations" % (
-        cfg, res.distinct, res.wall, nact, len(cases) - nact, nlines, len(v)))
+    r = bt.check_cases(ctx, variant, cases, cfg[11:-4], procs=ctx.pick(1, 4))
+    v, ncases, nlines, events = r["violations"], r["ncases"], r["nlines"], r["events"]
+    ctx.log("%s: %d distinct states (%.0fs), %d act + %d initramfs cases on real code, %d events validated, "
+            "%d deviating cases -> %d violations, %d unexplained" % (
+                cfg, res.distinct, res.wall, nact, len(cases) - nact, nlines, r["ndev"], len(v), len(r["unexplained"])))
     with acc.lock:
         acc.violations += v
+        acc.unexplained += ["%s: %s (%s)" % (bt.case_key(dv.case), dv.why, dv.kind) for dv in r["unexplained"]]
         acc.states += res.distinct
         acc.transitions += res.generated
         acc.cases_ok += ncases
@@ -98,6 +102,29 @@ def job_mc(ctx, acc, variant, cfg, workers, rng):
     return res
 
 
+def _classify_divergences(ctx, variant, divs, name):
+    """A replay that diverges is not a verdict by itself: the (state, action) / initramfs state it diverged in goes
+    through the same oracles as every other case (write order, TLC trace validation, statement oracle)."""
+    derived, unexplained = [], []
+    seen = set()
+    for dv in divs:
+        c = dv["derived"]
+        if c is None:
+            unexplained.append(dv["text"])
+            continue
+        k = bt.case_key(c)
+        if k not in seen:
+            seen.add(k)
+            derived.append(c)
+    if not derived:
+        return [], unexplained
+    r = bt.check_cases(ctx, variant, derived[:300], name + "_div")
+    unexplained += ["%s: %s (%s)" % (bt.case_key(x.case), x.why, x.kind) for x in r["unexplained"]]
+    if not r["violations"] and not r["unexplained"]:
+        unexplained += [d["text"] for d in divs[:3]]
+    return r["violations"], unexplained
+
+
 def job_sim(ctx, acc, variant, rng):
     """T->I: replay TLC -simulate behaviours (incl. PowerLoss at any pc) on one persistent real state each."""
     cfg = "BootTry_mc_%s_kb.cfg" % variant
@@ -111,16 +138,18 @@ def job_sim(ctx, acc, variant, rng):
         raise InfraError("simulate produced only %d behaviours for %s\n%s" % (len(behs), cfg, common.tail(res.out, 10)))
     cases = [bt.beh_case(variant, bt.to_steps(b)) for b in behs]
     events = bt.run_driver(ctx, cases, "sim_" + variant, procs=ctx.pick(1, 4))
-    v, ok, real_calls = bt.beh_violations(cases, events)
+    divs, ok, real_calls = bt.beh_divergences(cases, events)
+    v, unexplained = _classify_divergences(ctx, variant, divs, "sim_" + variant)
     npl = sum(1 for c in cases for s in c["steps"] if s["action"].startswith("PowerLoss"))
     nplmid = sum(1 for c in cases for i, s in enumerate(c["steps"]) if s["action"].startswith("PowerLoss")
                  and c["steps"][i - 1]["vars"]["act"]["name"] != "idle")
-    ctx.log("%s: %d behaviours replayed on real code (%d real calls, %d power losses, %d of them inside an action), %d diverged" % (
-        variant, ok, real_calls, npl, nplmid, len(v)))
+    ctx.log("%s: %d behaviours replayed on real code (%d real calls, %d power losses, %d of them inside an action), "
+            "%d diverged -> %d violations, %d unexplained" % (variant, ok, real_calls, npl, nplmid, len(divs), len(v), len(unexplained)))
     if npl == 0 or nplmid == 0:
         raise InfraError("vacuity guard: no PowerLoss inside an action among the replayed behaviours of %s" % variant)
     with acc.lock:
         acc.violations += v
+        acc.unexplained += unexplained
         acc.beh_ok += ok
         acc.real_calls += real_calls
         acc.per_cfg["simulate_" + variant] = {"behaviours": len(behs), "power_losses": npl, "power_losses_mid_action": nplmid}
@@ -155,9 +184,19 @@ def job_strict(ctx, acc, variant):
         raise InfraError("strict replay of %s produced no verdict" % variant)
     e = verdict[0]
     if not e["ok"]:
-        # the real code does not follow the spec's counterexample: the spec is wrong here, not the code
-        raise InfraError("counterexample of %s (%s) is NOT reproducible on the real code at step %d (%s): %s -- fix the spec" % (
-            cfg, res.name, e["step"], e["action"], e["msg"]))
+        # The real code does not follow the spec's counterexample. Not a verdict by itself and no reason to abort:
+        # the step it diverged in is classified like any other case; "known finding not reproducible" is only
+        # fatal (exit 2) when nothing else explains it (see run()).
+        divs, _, _ = bt.beh_divergences([case], events)
+        v, unexplained = _classify_divergences(ctx, variant, divs, "strict_" + variant)
+        ctx.log("%s: known-finding counterexample (%s) not reproducible on this tree at step %d (%s): %s -> %d violations" % (
+            variant, res.name, e["step"], e["action"], e["msg"], len(v)))
+        with acc.lock:
+            acc.violations += v
+            acc.unexplained += unexplained
+            acc.unexplained.append("counterexample of %s (%s) is NOT reproducible on the real code at step %d (%s): %s" % (
+                cfg, res.name, e["step"], e["action"], e["msg"]))
+        return
     compact = ["%s%s" % (s["action"], "(%d)" % s["vars"]["act"]["arg"] if s["action"] in ("SetNextK", "SetNextB", "UndoK", "UndoB") else "")
                for s in steps[1:]]
     if res.name == "NeverStuck":
@@ -184,6 +223,7 @@ def job_strict(ctx, acc, variant):
         raise InfraError("unexpected spec-level counterexample in %s: %s" % (cfg, res.summary()))
     ctx.log("%s: strict counterexample (%s) reproduced on the real code: %s" % (variant, res.name, key))
     with acc.lock:
+        acc.known_keys.add(key)
         acc.violations.append(Violation(key=key, desc=desc, replay={"variant": variant, "cfg": cfg, "steps": steps, "verdict": e}))
         acc.deviations_seen[key] = {"invariant": res.name, "events": compact, "real": e.get("real_halt_msg") or e.get("final_real_state")}
 
@@ -243,8 +283,26 @@ def run(ctx):
                 fu.result()
             except InfraError as e:
                 errs.append(e)
-    if errs:
-        raise InfraError("; ".join(str(e) for e in errs[:3]))
+    # verdict order: violations that the oracles established on the real code come first; infrastructure trouble and
+    # deviations that could not be tied to the statement only decide (exit 2) when there is no such violation
+    uniq = {}
+    for v in acc.violations:
+        uniq.setdefault(v.key, v)
+    acc.violations = list(uniq.values())
+    other = [v for v in acc.violations if v.key not in acc.known_keys]
+    for e in errs:
+        acc.notes.append("infra: %s" % str(e)[:400])
+    for u in acc.unexplained[:20]:
+        acc.notes.append("unexplained deviation: %s" % u[:400])
+    if not other:
+        if errs:
+            raise InfraError("; ".join(str(e) for e in errs[:3]))
+        if acc.unexplained:
+            raise InfraError("%d deviation(s) of the real code from the spec that do not break the statement by themselves "
+                             "(spec/harness to be triaged, DESIGN 2.8), e.g.: %s" % (len(acc.unexplained), " || ".join(acc.unexplained[:3])))
+    else:
+        for n in acc.notes:
+            ctx.log("note:", n[:300])
 
     return Result(
         level="model_checking",
